@@ -6,6 +6,7 @@ import (
 	"sort"
 	"strings"
 	"sync"
+	"sync/atomic"
 	"time"
 
 	tss "github.com/IBM/TSS/types"
@@ -133,6 +134,9 @@ func runOrch(r *prng.R, s *out.Sink, tier string) {
 	// participant
 	members := []uint16{1, 2, 3, 4}
 	orchDerivedTopicPair(s, members)
+	for k := 0; k < 5; k++ {
+		orchSimultaneousSigns(s, members)
+	}
 	for h := 0; h < histories && !orchStop; h++ {
 		func() {
 			defer func() {
@@ -451,6 +455,72 @@ func runOrch(r *prng.R, s *out.Sink, tier string) {
 			}
 		}()
 	}
+}
+
+// orchSimultaneousSigns: two Sign calls on one topic that enter at the same moment — both are inside the (application-
+// supplied) synchroniser factory before either has registered. Exactly one of them must be refused; the other keeps its
+// registration.
+func orchSimultaneousSigns(s *out.Sink, members []uint16) {
+	rg := &orchRig{}
+	rg.schemeRig = newSchemeRig(1, 2, identityMembership(members), nil, false)
+	var inFactory int32
+	rg.scheme.SyncFactory = func(m []uint16, _ func([]byte), _ func([]byte, uint16)) tss.Synchronizer {
+		atomic.AddInt32(&inFactory, 1)
+		for deadline := time.Now().Add(300 * time.Millisecond); atomic.LoadInt32(&inFactory) < 2 && time.Now().Before(deadline); {
+			time.Sleep(100 * time.Microsecond)
+		}
+		return &gatedSync{rig: rg, members: members}
+	}
+	rg.scheme.SetStoredData([]byte("stored"))
+	ctx, cancel := context.WithTimeout(context.Background(), 3*time.Second)
+	defer cancel()
+	done := make(chan error, 2)
+	for i := 0; i < 2; i++ {
+		go func() { _, err := rg.scheme.Sign(ctx, sha([]byte("digest")), "simultaneous-topic"); done <- err }()
+	}
+	s.N++
+	s.Count("simultaneous-signs")
+	s.Distinct["simultaneous signs"] = struct{}{}
+	var first error
+	select {
+	case first = <-done:
+	case <-time.After(1500 * time.Millisecond):
+	}
+	refused := first != nil && strings.Contains(first.Error(), "already signing")
+	kn := &keyNames{m: map[string]int{}}
+	during := rg.snapshot(kn)
+	if !refused {
+		s.Violate("C12", fmt.Sprintf("two Sign calls on one topic that entered at the same moment (both inside the synchroniser factory before either had registered): neither was refused within 1.5 s (first result: %v); tables: %s", first, during), "orch simultaneous signs")
+	}
+	cancel()
+	for _, g := range rg.allGates() {
+		select {
+		case g.release <- false:
+		default:
+		}
+	}
+	n := 1
+	if first == nil {
+		n = 2
+	}
+	for i := 0; i < n; i++ {
+		select {
+		case <-done:
+		case <-time.After(10 * time.Second):
+			s.Violate("C11", "a Sign call did not return within 10 s of the end of its context (simultaneous signs)", "orch simultaneous signs")
+			return
+		}
+	}
+	time.Sleep(20 * time.Millisecond)
+	if snap := rg.snapshot(kn); refused && snap != "sync=- rbc=- cls=- dkg=0" {
+		s.Violate("C12", "handler tables are not empty after two simultaneous Sign calls on one topic ended: "+snap, "orch simultaneous signs")
+	}
+}
+
+func (rg *orchRig) allGates() []*syncGate {
+	rg.mu.Lock()
+	defer rg.mu.Unlock()
+	return append([]*syncGate(nil), rg.gates...)
 }
 
 // orchDerivedTopicPair runs the one pair of distinct topics whose derived keys collide by construction:
